@@ -1,7 +1,7 @@
 (* C18 — property theorems only.  Each is closed by [exact] of a lemma proved elsewhere and is
    followed by Print Assumptions. *)
 From Coq Require Import ZArith QArith Qabs List Bool.
-From PySDC Require Import Base.Dyadic Base.Poly Model.FD Proofs.FDProofs.
+From PySDC Require Import Base.Dyadic Base.Poly Model.FD Proofs.TransferOpsProofs Proofs.FDProofs.
 Import ListNotations.
 
 (* (1) Stencil exactness for EVERY polynomial below the number of stencil points, every x, h<>0:
@@ -15,6 +15,20 @@ Theorem C18_stencil_exact_for_all_polynomials :
    <= abs_lin_from 0 a (stencil_tol steps w rtol))%Q.
 Proof. exact stencil_sound. Qed.
 Print Assumptions C18_stencil_exact_for_all_polynomials.
+
+
+(* (1') the same for polynomials given in the GLOBAL monomial basis: the stencil applied to p(x + s_i h)
+   returns d! * [t^d] p(x + t h) = h^d p^(d)(x); pshift c x h are the Taylor coefficients of t |-> p(x + t h)
+   (peval (pshift c x h) t == peval c (x + t h), proved as C11_pshift_correct) *)
+Theorem C18_stencil_exact_global_basis :
+  forall steps w d rtol, check_stencil steps w d rtol = true ->
+  forall c, (length c <= length steps)%nat ->
+  forall x h,
+  (Qabs (wsum (Qw w) (map (fun s => x + inject_Z s * h) steps) (peval c)
+        - inject_Z (zfact d) * nth d (pshift c x h) 0)
+   <= abs_lin_from 0 (pshift c x h) (stencil_tol steps w rtol))%Q.
+Proof. exact stencil_sound_global. Qed.
+Print Assumptions C18_stencil_exact_global_basis.
 
 (* (2) get_steps returns n pairwise distinct offsets, n as documented, for every layout *)
 Theorem C18_steps_count : forall der ord st, (0 < der)%Z -> (0 < ord)%Z ->
